@@ -72,6 +72,7 @@ var (
 	onceState map[*sync.Once]int
 	switches  int
 	deadlock  bool
+	inSetup   bool // Run is re-initialising the program's packages
 )
 
 func resetTasks() {
@@ -107,6 +108,11 @@ func quantum() int {
 
 // Go starts f as a task.
 func Go(f func()) {
+	if dead || !(running || inSetup) {
+		// the run is over, or this is the process's own package initialisation (which every
+		// run repeats under the simulator): nothing starts
+		return
+	}
 	taskSeq++
 	t := &task{id: taskSeq, wake: make(chan struct{}, 1), idleEpoch: -1}
 	tasks = append(tasks, t)
@@ -327,6 +333,9 @@ func endRunFrom(t *task) {
 // ---------------------------------------------------------------- timers
 
 func addTimer(d time.Duration, period time.Duration, ch chan time.Time, fn func()) *simTimer {
+	if dead || !(running || inSetup) {
+		return &simTimer{ch: ch}
+	}
 	timerSeq++
 	ms := int64(d / time.Millisecond)
 	if d > 0 && ms == 0 {
